@@ -9,7 +9,7 @@ use refimpl as r;
 fn budget(t: Tier) -> u64 {
     match t {
         Tier::Quick => 1_500,
-        Tier::Thorough => 30_000,
+        Tier::Thorough => 150_000,
     }
 }
 
